@@ -71,6 +71,14 @@ Definition cls_code (num chg : Z) (rad : bool) (nb : Z) (h : option Z) (indb : b
   end.
 Definition cls_row (num chg nb : Z) (indb : bool) (codes : list Z) : bool :=
   list_eqb Z.eqb (map (fun rh => cls_code num chg (fst rh) nb (snd rh) indb) rh8) codes.
+(* the search _kekule_component: first yields, raise flag *)
+Definition E (a p o : Z) : kentry := (a, p, o).
+Definition kentry_eqb (x y : kentry) : bool := let '(a, p, o) := x in let '(a', p', o') := y in (a =? a') && (p =? p') && (o =? o').
+Definition kc_ok (rings : adjl) (db : list Z) (dbs : Z) (pyr : list Z) (bs maxy : Z) (ys : list (list kentry)) (raised : bool) : bool :=
+  match kekule_component rings db dbs pyr bs (Z.to_nat maxy) (Z.to_nat 30000) with
+  | Ok (ys', r, _) => list_eqb (list_eqb kentry_eqb) ys' ys && Bool.eqb r raised
+  | Err _ => false
+  end.
 (* the per-atom function alone, for the states that reach the atom loop *)
 Definition cls_ok (num chg : Z) (rad : bool) (nb : Z) (h : option Z) (indb : bool) (code : Z) : bool :=
   match classify_atom num chg rad nb h indb with
@@ -563,6 +571,8 @@ class Pipe:
             cases.append((f'prep_raises (prepare_rings g{i} r{i})', ('prepare_rings raises', label, list(m0._atoms)), 'prep'))
             prep_raises = True
         ck.case(('prep', tag, label), nontrivial=aromatic_input and not prep_raises)
+        if not prep_raises and rings and (full or kind in ('curated', 'malformed', 'arenes.sdf')):
+            self.component_cases(before, label, m0, cases)
         if misdrawn:
             ck.count('mis-drawn ring repaired by __prepare_rings (relation applied to Model.repair of the input)')
 
@@ -727,6 +737,49 @@ class Pipe:
                 self.forms(i, 'M', m0, src, before, sa, label, clean, full, defs, cases, tag, code_of, '', k, why_not)
         cs.add(defs, cases)
         return a, k, clean, why_not, four
+
+    def component_cases(self, before, label, m0, cases, k_yields=4):
+        """correspondence for the search itself: the arguments the real __kekule_full passes to _kekule_component are
+        recorded, the real generator is run on them (first k_yields results, with and without the pyridine buffer) and
+        compared with Model.Kekule.kekule_component"""
+        import chython.algorithms.aromatics.kekule as km
+        from chython.exceptions import InvalidAromaticRing
+        rec = []
+        orig = km._kekule_component
+
+        def recorder(rings, db, pyr, bs):
+            rec.append(({n: list(ms) for n, ms in rings.items()}, list(db), next(iter(db)) if db else 0, list(pyr)))
+            return orig(rings, db, pyr, bs)
+        km._kekule_component = recorder
+        try:
+            try:
+                next(before.copy()._Kekule__kekule_full(7), None)
+            except InvalidAromaticRing:
+                pass
+        finally:
+            km._kekule_component = orig
+        for rings, dbl, dbs, pyr in rec:
+            size = sum(len(ms) for ms in rings.values()) // 2
+            for bs in ((7, 0) if size <= 26 else (7,)):
+                db2 = set(dbl)
+                if dbl and next(iter(db2)) != dbs:
+                    self.ck.count('search: set iteration order not reproducible (skipped)')
+                    continue
+                raised = False
+                try:
+                    ys = list(itertools.islice(orig({n: list(ms) for n, ms in rings.items()}, db2, set(pyr), bs), k_yields))
+                except InvalidAromaticRing:
+                    ys, raised = [], True
+                except Exception as e:
+                    self.bad(True, f'kekule-crash:{type(e).__name__}:{label}', f'_kekule_component raises {type(e).__name__}', label, repr(e), 'forms or InvalidAromaticRing',
+                             'exception class', None)
+                    continue
+                rt = lst([tup(zraw(n), lst(ms, zraw)) for n, ms in rings.items()])
+                yt = lst([lst([f'E {zraw(a)} {zraw(p_)} {o}' for a, p_, o in y]) for y in ys])
+                cases.append((f'kc_ok {rt} {lst(dbl, zraw)} {zraw(dbs)} {lst(pyr, zraw)} {bs} {k_yields} {yt} {b(raised)}',
+                              ('search', label, list(m0._atoms), bs), 'prep'))
+                self.ck.case(('search', label, tuple(m0._atoms), bs, tuple(rings)), nontrivial=bool(ys))
+                self.ck.count(f'search: buffer={bs}: {"InvalidAromaticRing" if raised else str(len(ys)) + " form(s) compared"}')
 
     def repaired(self, m, name, rname):
         """the Coq term of the molecule the relation starts from: rings __prepare_rings completes (single / double bonds
